@@ -103,9 +103,17 @@ class StorageTools:
         logger.debug("writeProfileData(profile_name=%s, name=%s, val=[omitted])" % (profile_name, name))
         path = os.path.join(StorageTools.getStorageForProfile(profile_name), name)
         logger.debug("Writing %s" % path)
+        dirname = os.path.dirname(path)
+        if not os.path.exists(dirname):
+            os.makedirs(dirname)
 
-        with open(path, 'w' if type(val) is str else 'wb') as attrFile:
+        # write a temporary file and rename it into place, so that a crash never leaves a truncated file
+        fd, tmpPath = tempfile.mkstemp(prefix=name + ".", dir=dirname)
+        with os.fdopen(fd, 'w' if type(val) is str else 'wb') as attrFile:
             attrFile.write(val)
+            attrFile.flush()
+            os.fsync(attrFile.fileno())
+        os.rename(tmpPath, path)
 
     @staticmethod
     def readProfileData(profile_name, name, default=None):
